@@ -10,15 +10,15 @@ PROP = dict(
     assumptions=[
         "sha256 and uuid5 are opaque functions of the bytes (the identifier is compared across routes on the implementation)",
         "floats are multiples of 1/8 that fit IEEE binary16 (the canonical encoder's shortest-float rule is mirrored for those); GraphQL Int literals are 32-bit, larger integers skip the GraphQL route",
-        "schema/collection identifiers are checked on the implementation only (no Lean mirror of getSchemaSets yet)",
+        "the grouping of types into schema sets is modelled as a specification (mutual reachability), not as a mirror of getSchemaSets' pruning loop and recursive walk; the implementation's sets are compared with it on every generated graph; the hash of a set is opaque",
     ],
     trusted_base=["harness/ident, Driver/Ident.lean"],
 )
 META = dict(
     text=("Lean theorems about the byte-exact mirror of Document.Bytes(): the canonical CBOR — hence the docID, for any hash — does not depend on the order of the fields (sorted form is unique: stable merge sort + antisymmetry of the canonical key order on distinct names) "
-          "nor on nil versus omitted fields. Tied to /repo byte for byte on every generated document; route/node/run independence of docIDs and order/partition/repetition independence of schema and collection identifiers are evaluated on the implementation."),
+          "nor on nil versus omitted fields. Schema sets: two types share a set exactly when each reaches the other through relations between types of the call; proved: the sets do not depend on the order of the definitions, and when the definitions are added in two calls (the earlier not referring to the later) both calls form exactly the sets of a single call, the later call from its own definitions alone; the executable closure the driver uses is proved exact wherever it reached its fixed point (checked at run time on every graph). Tied to /repo byte for byte on every generated document; route/node/run independence of docIDs and order/partition/repetition independence of schema and collection identifiers are evaluated on the implementation."),
     design_ref="DESIGN.md section 8, C13",
-    note="Trusted: Lean kernel; harness/ident. PARTIAL: the schema-set grouping (getSchemaSets, pruning loop, circlesBack) has no Lean mirror; its order-independence is an implementation-only oracle over generated graphs and repetitions.",
-    technique="Lean 4 proof (canonical serialisation is permutation- and nil-invariant) + byte-exact correspondence + metamorphic identifier oracle",
+    note="Trusted: Lean kernel; harness/ident. PARTIAL: the schema-set grouping is tied to the implementation as a specification compared on generated graphs, not by a statement-level mirror of getSchemaSets (pruning loop, mapSchemaSetIDs, circlesBack); repetition independence (Go map iteration) is an implementation-only oracle.",
+    technique="Lean 4 proof (canonical serialisation is permutation- and nil-invariant; schema sets are order- and partition-invariant) + byte-exact correspondence + metamorphic identifier oracle",
 )
 ENGINES = [{"name": "ident", "path": "harness/ident", "serves_properties": ["C13"], "kind_free_text": "document construction routes and SDL permutations/partitions/repetitions; canonical CBOR bytes vs model"}]
